@@ -16,6 +16,7 @@ pub mod c12;
 pub mod c13;
 pub mod c14;
 pub mod c15;
+pub mod c16;
 pub mod c17;
 pub mod c18;
 pub mod c19;
@@ -50,6 +51,7 @@ pub fn registry() -> Vec<(&'static str, CheckFn)> {
         ("C13", c13::run as CheckFn),
         ("C14", c14::run as CheckFn),
         ("C15", c15::run as CheckFn),
+        ("C16", c16::run as CheckFn),
         ("C17", c17::run as CheckFn),
         ("C18", c18::run as CheckFn),
         ("C19", c19::run as CheckFn),
